@@ -499,7 +499,7 @@ func (st *srvState) fabricatedID() [32]byte {
 	return sha256.Sum256([]byte(fmt.Sprintf("nobody asked with this id %d/%d", st.sc.id, n)))
 }
 
-func (st *srvState) noisePacket(k noiseKind, body []byte) []byte {
+func (st *srvState) noisePacket(k noiseKind, body []byte, pending *[32]byte) []byte {
 	if st.sc.auth && k == nAuthNonce {
 		// an authenticating client is waiting for exactly one nonce per connection; a second, unsolicited
 		// one is a different protocol conversation from the one this property is about
@@ -521,7 +521,15 @@ func (st *srvState) noisePacket(k noiseKind, body []byte) []byte {
 	case nUnknownAnswer:
 		wrong := F(body)
 		wrong[0] ^= 0xff
-		return adnlsrv.Answer(st.fabricatedID(), wrong)
+		id := st.fabricatedID()
+		if pending != nil && id[0]&1 == 0 {
+			// an id nobody asked with that differs from the pending one in a single bit (position taken
+			// from the fabricated id): still an unknown id
+			near := *pending
+			near[int(id[1])%32] ^= 1 << (id[2] % 8)
+			id = near
+		}
+		return adnlsrv.Answer(id, wrong)
 	default:
 		p := make([]byte, 4)
 		binary.LittleEndian.PutUint32(p, adnlsrv.MagicAuthNonce)
@@ -617,7 +625,7 @@ func (st *srvState) onQuery(cn *adnlsrv.Conn, id [32]byte, body []byte) {
 		// the burst is written while the connection keeps serving queries; the close follows it
 		frames := make([][]byte, fault.burst)
 		for i := range frames {
-			frames[i] = st.noisePacket(fault.burstKind, body)
+			frames[i] = st.noisePacket(fault.burstKind, body, &id)
 		}
 		st.pending.Add(1)
 		go func() {
@@ -634,7 +642,7 @@ func (st *srvState) onQuery(cn *adnlsrv.Conn, id [32]byte, body []byte) {
 		q = st.sc.calls[caller][call]
 	}
 	for _, k := range q.noise {
-		cn.WriteFrame(st.noisePacket(k, body))
+		cn.WriteFrame(st.noisePacket(k, body, &id))
 	}
 	switch q.kind {
 	case kNow:
@@ -670,7 +678,7 @@ func (st *srvState) onQuery(cn *adnlsrv.Conn, id [32]byte, body []byte) {
 		}
 	case kNever:
 	case kUnknownOnly:
-		cn.WriteFrame(st.noisePacket(nUnknownAnswer, body))
+		cn.WriteFrame(st.noisePacket(nUnknownAnswer, body, &id))
 	}
 	for _, h := range release {
 		h.fire()
